@@ -8,7 +8,7 @@ ASSUMPTIONS = _bc.ASSUMPTIONS + [
     "the whole-broker runs check the composition on sampled schedules",
 ]
 
-CLAUSES = {"c15_in_order", "c15_release_intact", "c15_resend_order", "c15_dequeue_order"}
+CLAUSES = {"c15_in_order", "c15_release_intact", "c15_resend_order", "c15_dequeue_order", "c15_resend_first"}
 
 
 def run(ck):
